@@ -87,7 +87,9 @@ def judge(ch, net, obj, rec, stack, seq):
                                 f"call {i} ({seq[i-1].label}) was interrupted by {simnet.INTERRUPTS[name].__name__} in "
                                 f"{k}() but ended with {r['kind']} {connoracle.short(r['value'])}"))
     base, _ = _cfg(stack)
-    out += connoracle.judge(ch, net, obj, rec, base, True, seq)
+    out += connoracle.judge(ch, net, obj, rec, base, True, seq,
+                            base=connoracle.baseline_kinds(base, True, seq, _cfg(stack)[1], "segment")
+                            if _between(stack) is None else None)
     for i, r in enumerate(rec, 1):
         if r["used"]:
             out.append(("pool-slot-lost", i, f"after call {i} ({seq[i-1].label}) {r['used']} pooled connection(s) "
